@@ -499,6 +499,23 @@ From Minimq Require Import Reconnect ConnectIdle.
    ends in `IdleQ` (once the application holds the handle), for every configuration in which the CONNECT fits.  Hence: connect,
    then any list of acknowledged requests that are valid, not QoS 0 and fit the transmit buffer, each followed by its poll():
    the connect succeeds, every request completes, and the session ends idle. ---- *)
+(* an inbound QoS 0 message arriving between two exchanges is delivered by one poll(), exactly as decoded, and leaves the
+   connection idle: nothing written, queues, window and timers untouched *)
+Theorem C16_inbound_qos0_idle : forall w h rl body t topic r dp props payload,
+  Hc w ->
+  ob_ctl (s_ob (w_sess w)) = [] -> ob_rel (s_ob (w_sess w)) = [] -> ob_ret (s_ob (w_sess w)) = [] ->
+  rt_ka_ms (s_rt (w_sess w)) = 0 -> rt_next_ping (s_rt (w_sess w)) = None -> rt_ping_timeout (s_rt (w_sess w)) = None ->
+  w_broker w = 1 -> w_txbuf w = [] -> w_last_arrival w <= w_now w ->
+  rdata (rd w) = [] -> rplen (rd w) = None -> 6 <= rcap (rd w) ->
+  varint_write (lenN body) = Some rl ->
+  let pkt := h :: rl ++ body in
+  w_inq w = [(t, pkt)] -> t <= w_now w -> lenN pkt <= rcap (rd w) -> lenN pkt <= 29000 ->
+  from_buffer pkt = Some (RPublish topic None Q0 r dp props payload) ->
+  exists w', op_poll FUEL w = (w', ODone (Some (RPublish topic None Q0 r dp props payload))) /\
+    w_wire w' = w_wire w /\ w_now w' = w_now w /\ s_rt (w_sess w') = s_rt (w_sess w) /\ s_ob (w_sess w') = s_ob (w_sess w) /\
+    Idle w'.
+Proof. exact inbound_qos0_idle. Qed.
+
 Theorem C16_connect_establishes_idle : forall w off bs,
   w_script w = [] -> w_broker w = 2 -> w_inq w = [] -> w_txbuf w = [] -> w_last_arrival w <= w_now w ->
   6 <= rcap (s_reader (w_sess w)) ->
@@ -589,3 +606,4 @@ Print Assumptions C16_static_history_hyps_met.
 Print Assumptions C16_connect_establishes_idle.
 Print Assumptions C16_connect_then_history_completes.
 Print Assumptions C16_connect_then_history_hyps_met.
+Print Assumptions C16_inbound_qos0_idle.
